@@ -37,6 +37,9 @@ func init() {
 			obs = append(obs, c.PayloadOnEveryPath("nbt")...)
 			obs = append(obs, c.ZeroValueType("nbt")...)
 			obs = append(obs, c.MarshalerWrapper("nbt")...)
+			obs = append(obs, c.ArrayTagFromPlainElements("nbt.getTagType")...)
+			obs = append(obs, c.LengthPrefixNarrowing("nbt", "nbt/dynbt")...)
+			obs = append(obs, c.SetExactType("nbt", "nbt.(*Decoder).unmarshal")...)
 			obs = append(obs, filterObs(c.RawRead(), func(o core.Ob) bool { return strings.HasPrefix(o.Key, "nbt.") || strings.HasPrefix(o.Key, "nbt/") })...)
 			return obs
 		},
@@ -58,6 +61,9 @@ func init() {
 			obs = append(obs, c.PayloadOnEveryPath("nbt")...)
 			obs = append(obs, c.ZeroValueType("nbt")...)
 			obs = append(obs, c.MarshalerWrapper("nbt")...)
+			obs = append(obs, c.ArrayTagFromPlainElements("nbt.getTagType")...)
+			obs = append(obs, c.LengthPrefixNarrowing("nbt", "nbt/dynbt")...)
+			obs = append(obs, c.SetExactType("nbt", "nbt.(*Decoder).unmarshal")...)
 			obs = append(obs, c.EscapePassOrder("nbt")...)
 			return obs
 		},
@@ -73,6 +79,10 @@ func init() {
 			obs = append(obs, c.SNBTTextThroughParser("nbt")...)
 			obs = append(obs, c.SNBTBareStrings("nbt")...)
 			obs = append(obs, c.SNBTPrintRange("nbt")...)
+			obs = append(obs, c.SNBTSuffixStrip()...)
+			obs = append(obs, c.SNBTWrittenTagReturned("nbt")...)
+			obs = append(obs, c.SNBTLiteralAfterBegin("nbt")...)
+			obs = append(obs, c.ScannerEscapeSet("nbt")...)
 			obs = append(obs, c.ScannerDelegatedSkip("nbt")...)
 			obs = append(obs, c.TextEntryEOF("nbt.(StringifiedMessage).MarshalNBT")...)
 			obs = append(obs, c.EscapePassOrder("nbt")...)
@@ -124,6 +134,7 @@ func init() {
 			obs := c.BitStorageGuards()
 			obs = append(obs, c.BitStorageFixSibling()...)
 			obs = append(obs, c.BitStorageDerivedRefreshed()...)
+			obs = append(obs, c.FixRefusalChangesNothing()...)
 			obs = append(obs, c.BitWidthInverse()...)
 			obs = append(obs, c.BitStorageReadLength()...)
 			obs = append(obs, filterObs(c.AcceptsLegitLengths(), func(o core.Ob) bool { return strings.Contains(o.Key, "BitStorage") })...)
